@@ -97,6 +97,8 @@ def replay(cls, P, h, names="none"):
                 f.oracle(x)
             elif e == "S":
                 f.stationary_point(name=nm)
+            elif e == "Q":
+                (f / 2).stationary_point(name=nm)
             elif e == "X":
                 f.fixed_point(name=nm)
             elif e == "R":
